@@ -1138,6 +1138,7 @@ theorem kwTok_isType (cfg : Cfg) (isType' : Nat → List Ch → Bool) (w : List 
     kwTok { cfg with isType := isType' } w = kwTok cfg w := rfl
 
 theorem action_other (cfg : Cfg) (isType' : Nat → List Ch → Bool) (ρ : List Ch → List Ch) (n : Nat) (r : Rule) (w : List Ch)
+    (hsoft : ∀ n w, w ∈ cfg.softLits → cfg.isType n w = false ∧ isType' n w = false)
     (h : r ≠ .ident ∨ kwTok cfg w ≠ none) :
     action { cfg with isType := isType' } n r w = action cfg n r w ∧ (action cfg n r w).1.map (renTok ρ) = (action cfg n r w).1 := by
   cases r with
@@ -1147,6 +1148,11 @@ theorem action_other (cfg : Cfg) (isType' : Nat → List Ch → Bool) (ρ : List
     · cases hk : kwTok cfg w with
       | none => exact absurd hk h
       | some t => simp [action, kwTok_isType, hk, renTok]
+  | lit l t =>
+    by_cases hc : w ∈ cfg.softLits
+    · obtain ⟨h1, h2⟩ := hsoft n w hc
+      simp [action, h1, h2, renTok]
+    · simp [action, hc, renTok]
   | litOld l t => simp only [action]; refine ⟨trivial, ?_⟩; split <;> simp [renTok]
   | newlines => simp only [action]; refine ⟨trivial, ?_⟩; split <;> simp [renTok]
   | crlf => simp only [action]; refine ⟨trivial, ?_⟩; split <;> simp [renTok]
@@ -1154,7 +1160,8 @@ theorem action_other (cfg : Cfg) (isType' : Nat → List Ch → Bool) (ρ : List
   | _ => simp [action, renTok]
 
 theorem tokensOf_rename (cfg : Cfg) (isType' : Nat → List Ch → Bool) (ρ : List Ch → List Ch)
-    (htype : ∀ n w, isType' n (ρ w) = cfg.isType n w) :
+    (htype : ∀ n w, isType' n (ρ w) = cfg.isType n w)
+    (hsoft : ∀ n w, w ∈ cfg.softLits → cfg.isType n w = false ∧ isType' n w = false) :
     ∀ (items : List Item) (n : Nat),
       (∀ it ∈ items, isUserId cfg it = true →
           kwTok cfg (ρ it.w) = none ∧ (ρ it.w).length < cfg.maxLen ∧ it.w.length < cfg.maxLen) →
@@ -1190,7 +1197,7 @@ theorem tokensOf_rename (cfg : Cfg) (isType' : Nat → List Ch → Bool) (ρ : L
         rcases hu with hu | hu
         · exact Or.inl hu
         · right; intro e; simp [e] at hu
-      obtain ⟨e1, e2⟩ := action_other cfg isType' ρ n it.r it.w hne
+      obtain ⟨e1, e2⟩ := action_other cfg isType' ρ n it.r it.w hsoft hne
       rw [e1, e2]
       have := ih (n + (action cfg n it.r it.w).1.length) (fun it' hit' => h it' (List.mem_cons_of_mem _ hit'))
       simp only [renItems] at this
